@@ -120,8 +120,23 @@ class Repo(object):
                 sigs[name] = ps
         for c in clash:
             sigs.pop(c, None)
+        # module-qualified spellings decide where two modules define the same name (gate.density2d / plot.density2d)
+        for mname, m in self.mods.items():
+            for q, f in m.funcs.items():
+                a = f.args
+                if '<locals>' in q or '.' in q or a.vararg or a.posonlyargs:
+                    continue
+                sigs[mname + '.' + q] = [x.arg for x in a.args]
         sym.REPO_SIGS.clear()
         sym.REPO_SIGS.update(sigs)
+        # third-party callables imported by name (`from scipy.optimize import minimize`): their source name is a root
+        for m in self.mods.values():
+            for st in m.tree.body:
+                if isinstance(st, ast.ImportFrom) and st.module and st.level == 0 and st.module.split('.')[0] in ('numpy', 'scipy', 'pandas', 'matplotlib'):
+                    for al in st.names:
+                        nm = al.asname or al.name
+                        if nm not in sym.EXT_ROOTS and nm != '*':
+                            sym.EXT_ROOTS[nm] = st.module + '.' + al.name
 
     def mod(self, name):
         return self.mods[name]
